@@ -17,7 +17,13 @@ RULE = ('(override instant, datetime, representation, seconds) tuples: instants 
         'folds) / ISO string via isoformat(); seconds int or float, zero, negative, fractional, half-microsecond ties, '
         'beyond timedelta; the compared datetime is placed at, 1 us below and 1 us above the equality boundary. Plus '
         'call sequences (set/advance/read/compare/clear, directly and through TimeFixture), normalize_time, '
-        'timedelta(seconds=), marshall/unmarshall records. A case is non-trivial when an override-dependent call '
+        'timedelta(seconds=), marshall/unmarshall records. Order independence: normalize_time is a call inside the '
+        'sequences; both `fold` readings of one ambiguous wall time (every zone of the list with an offset decrease in '
+        '1990..2037, first/last/random microsecond of the repeated interval) are passed back to back in either order '
+        'through normalize_time and the three comparisons under a fixed override; earlier calls are repeated unchanged, '
+        'on the other fold reading, with other seconds, or after the clock moved - the oracle computes every expected '
+        'result from that call\'s arguments and the override cell alone; a failure is confirmed and shrunk in a fresh '
+        'interpreter (if it depends on an earlier case, that case is put in front: kind "multi"). A case is non-trivial when an override-dependent call '
         'returned a value (datetime, timestamp, bool) or normalize/marshall/unmarshall returned one, on both sides; '
         'distinct by the canonical JSON of the case')
 TRUSTED_BASE = [
@@ -57,7 +63,7 @@ TD_MIN_US = -999999999 * DAY_US
 TD_MAX_US = 1000000000 * DAY_US - 1
 ZONES = [z for z in ['Europe/Paris', 'America/New_York', 'Asia/Kolkata', 'Australia/Lord_Howe',
                      'Pacific/Kiritimati', 'Etc/GMT+12', 'Asia/Kathmandu', 'America/St_Johns', 'Pacific/Apia',
-                     'UTC', 'Africa/Monrovia']
+                     'UTC', 'Africa/Monrovia', 'Europe/Berlin', 'Europe/London']
          if z in zoneinfo.available_timezones()]
 ZONE_KEYS = ['UTC', 'UTC+00:00', 'Europe/Paris', 'UTC+01:00', 'Nope/Zone', 'utc', '../x', 'Etc/GMT+12', '']
 
@@ -324,6 +330,125 @@ def gen_now_for_boundary(ctx):
 # --------------------------------------------------------------------------
 # cases
 
+# --------------------------------------------------------------------------
+# ambiguous wall-clock readings (the repeated interval after an offset decrease): both `fold`
+# readings of one wall time compare and hash equal although they denote different instants
+
+_FOLDS = {}
+CALLS_WITH_DT = ('norm', 'older', 'newer', 'soon')
+
+
+def fold_transitions(key):
+    """[(T, shift)]: UTC instants T (1990..2037) at which the zone's offset drops by `shift` us;
+    the wall-clock readings of [T - shift, T) are repeated by [T, T + shift)"""
+    if key in _FOLDS:
+        return _FOLDS[key]
+    z = zoneinfo.ZoneInfo(key)
+
+    def off(u):
+        return off_us(dt_of(u).replace(tzinfo=UTC).astimezone(z))
+    out = []
+    u, end = us_of(DT(1990, 1, 1)), us_of(DT(2037, 12, 31))
+    prev = off(u)
+    while u < end:
+        nxt = u + DAY_US
+        o = off(nxt)
+        if o < prev:
+            lo, hi = u, nxt
+            while hi - lo > 10 ** 6:
+                mid = (lo + hi) // 2 // 10 ** 6 * 10 ** 6
+                if off(mid) == prev:
+                    lo = mid
+                else:
+                    hi = mid
+            if off(hi - 1) == prev and off(hi) == o:
+                out.append((hi, prev - o))
+        prev, u = o, nxt
+    _FOLDS[key] = out
+    return out
+
+
+def dst_zones():
+    return [z for z in ZONES if fold_transitions(z)]
+
+
+def fold_pair(key, T, shift, pos):
+    """the two specs (fold=0, fold=1) of the wall time read `pos` us into the repeated interval, or None"""
+    z = zoneinfo.ZoneInfo(key)
+    u0 = T - shift + pos
+    u1 = u0 + shift
+    a = dt_of(u0).replace(tzinfo=UTC).astimezone(z)
+    b = dt_of(u1).replace(tzinfo=UTC).astimezone(z)
+    if us_of(a) != us_of(b) or (a.fold, b.fold) != (0, 1):
+        return None
+    loc = us_of(a)
+    return ({'us': loc, 'tz': ['zone', key, 0], 'utc': u0}, {'us': loc, 'tz': ['zone', key, 1], 'utc': u1})
+
+
+def gen_fold_pair(ctx):
+    rng = ctx.rng
+    zs = dst_zones()
+    for _ in range(20):
+        if not zs:
+            return None
+        key = rng.choice(zs)
+        T, shift = rng.choice(fold_transitions(key))
+        pos = rng.choice([0, shift - 1, rng.randrange(shift), rng.randrange(shift) // 10 ** 6 * 10 ** 6])
+        pair = fold_pair(key, T, shift, pos)
+        if pair:
+            return pair
+    return None
+
+
+def call_on(ctx, what, spec, now, other=None):
+    """one call of `what` on the datetime `spec`; a comparison is aligned (within 1 us) with the boundary of
+    `spec` or of `other` relative to the clock `now`, so that the two answers differ about half of the time"""
+    rng = ctx.rng
+    if what == 'norm':
+        return ['norm', spec]
+    o = off_us(build_dt(spec))
+    iso = 1 if what != 'soon' and o % (60 * 10 ** 6) == 0 and rng.random() < 0.25 else 0
+    u = spec_utc(other if other is not None and rng.random() < 0.5 else spec)
+    delta = rng.choice([-1, 0, 1])
+    dist = (now - u if what == 'older' else u - now) - delta          # the seconds value wanted, in us
+    if rng.random() < 0.5 and dist % 10 ** 6 == 0:
+        sec = ['int', dist // 10 ** 6]
+    else:
+        sec = ['float', (dist / 1e6).hex()]
+        if sec_us(sec) != dist or not float_ok(sec_value(sec)):      # not representable: take whole seconds
+            sec = ['int', dist // 10 ** 6]
+    return [what, spec, sec, iso]
+
+
+def gen_foldseq(ctx):
+    """Both readings of one ambiguous wall time, back to back in one process, in either order, through
+    normalize_time and the three comparisons under a fixed override; some calls repeated."""
+    rng = ctx.rng
+    pair = gen_fold_pair(ctx)
+    if pair is None:
+        return gen_seq(ctx, True)
+    first = rng.randrange(2)
+    a, b = pair[first], pair[1 - first]
+    now = pair[0]['utc'] + rng.choice([0, 1, -1, rng.randrange(-3 * 3600 * 10 ** 6, 3 * 3600 * 10 ** 6),
+                                       rng.randrange(-10 ** 12, 10 ** 12)])
+    what = rng.choice(['norm', 'norm', 'older', 'newer', 'soon', 'mixed'])
+    ops = []
+    for spec, oth in ((a, b), (b, a)) + (((a, b), (b, a)) if rng.random() < 0.3 else ()):
+        w = rng.choice(['norm', 'older', 'newer', 'soon']) if what == 'mixed' else what
+        ops.append(call_on(ctx, w, spec, now, oth))
+        if rng.random() < 0.15:
+            ops.append(list(ops[-1]))                                 # the very same call again
+    ctx.count('fold/' + what + '/fold%d-first' % first)
+    return {'kind': 'seq', 'init': now, 'ops': ops, 'fixture': rng.random() < 0.1}
+
+
+def twin(spec):
+    """the other `fold` reading of a zone-aware spec (same key for ==/hash when the wall time is ambiguous)"""
+    if spec.get('tz') and spec['tz'][0] == 'zone':
+        return {'us': spec['us'], 'tz': ['zone', spec['tz'][1], 1 - spec['tz'][2]]}
+    return None
+
+
 def gen_seq(ctx, long):
     rng = ctx.rng
     ops = []
@@ -356,6 +481,28 @@ def gen_seq(ctx, long):
             ops.append(['now', rng.randrange(2)])
         elif k < 12:
             ops.append(['ts', rng.randrange(2)])
+        elif k < 14 and long and any(op[0] in CALLS_WITH_DT for op in ops):
+            # an earlier call again - unchanged, on the other fold reading, or with other seconds - possibly after
+            # the clock moved: the answer may depend on this call's arguments and the override cell only
+            old = rng.choice([op for op in ops if op[0] in CALLS_WITH_DT])
+            new = [old[0], dict(old[1])] + [x for x in old[2:]]
+            j = rng.randrange(4)
+            if (j == 1 and not twin(old[1])) or (j == 2 and new[0] == 'norm') or (j == 3 and old[0] == 'norm'):
+                j = 0
+            if j == 1:
+                new[1] = twin(old[1])
+                if new[0] != 'norm' and new[3]:
+                    o = off_us(build_dt(new[1]))
+                    new[3] = 1 if o % (60 * 10 ** 6) == 0 else 0
+            elif j == 2:
+                new[2] = gen_secs(ctx)
+            elif j == 3:
+                new = ['norm', dict(old[1])]
+            ctx.count('seq/repeated-call/' + ['same', 'fold-twin', 'other-seconds', 'as-normalize'][j])
+            ops.append(new)
+        elif k < 15 and long:
+            u = gen_instant(rng)
+            ops.append(['norm', gen_repr(ctx, u, False)[0]])
         else:
             ops.append(gen_cmp(ctx, clock if clock is not None else gen_instant(rng)))
     return {'kind': 'seq', 'init': init, 'ops': ops, 'fixture': rng.random() < 0.25}
@@ -410,6 +557,8 @@ def gen_unmarshall(ctx):
 def gen_case(ctx):
     rng = ctx.rng
     k = rng.randrange(100)
+    if k < 8:
+        return gen_foldseq(ctx)
     if k < 45:
         now = gen_now_for_boundary(ctx)
         return {'kind': 'seq', 'init': now, 'ops': [gen_cmp(ctx, now)], 'fixture': False}
@@ -447,6 +596,26 @@ def corpus():
     out.append({'kind': 'seq', 'init': now, 'fixture': True,
                 'ops': [['now', 0], ['advs', ['int', 60]], ['now', 1], ['advd', -1], ['ts', 1], ['ts', 0],
                         ['advs', ['float', (-0.5).hex()]], ['now', 0], ['clear'], ['now', 0], ['advd', 1]]})
+    for key in dst_zones():
+        T, shift = fold_transitions(key)[-1]
+        for order, pos in ((0, shift // 2), (1, shift // 2 + 250001)):
+            pair = fold_pair(key, T, shift, pos)
+            if not pair:
+                continue
+            a, b = pair[order], pair[1 - order]
+            out.append({'kind': 'seq', 'init': None, 'fixture': False, 'ops': [['norm', a], ['norm', b], ['norm', a]]})
+            # a fresh wall time per function (an earlier call must not have primed anything)
+            for i, fn in enumerate(('older', 'newer', 'soon')):
+                pr = fold_pair(key, T, shift, pos + 7 * (i + 1))
+                if not pr:
+                    continue
+                a, b = pr[order], pr[1 - order]
+                u0 = pr[0]['utc']
+                # clock and seconds chosen so that the two readings get different answers
+                now0 = u0 + shift // 2 if fn == 'older' else u0 - 10 ** 6
+                sec = ['int', 60] if fn == 'older' else ['int', 1 + shift // (2 * 10 ** 6)]
+                out.append({'kind': 'seq', 'init': now0, 'fixture': False,
+                            'ops': [[fn, a, sec, 0], [fn, b, sec, 0], [fn, a, sec, 0]]})
     out.append({'kind': 'norm', 'dt': {'us': MAX_US, 'tz': ['fixed', -3600 * 10 ** 6]}})
     out.append({'kind': 'norm', 'dt': {'us': 0, 'tz': ['fixed', 3600 * 10 ** 6]}})
     out.append({'kind': 'marshall', 'dt': {'us': now + 123456, 'tz': ['named', 0, 'UTC+00:00']}, 'leap': True,
@@ -565,6 +734,11 @@ class SeqRunner:
             if not overridden:
                 return 'real' if isinstance(r, bool) else 'other'
             return fmt_num(r) if isinstance(r, bool) else 'other:' + repr(r)
+        if k == 'norm':
+            r = t.normalize_time(build_dt(op[1]))
+            if not isinstance(r, DT) or r.tzinfo is not None:
+                return 'other:' + repr(r)
+            return 'dt:%d' % us_of(r)
         raise ValueError(op)
 
     def run(self, init, ops):
@@ -604,6 +778,7 @@ def op_str(op):
 def run_impl(case):
     """canonical outcome of the case on the implementation: a list of strings"""
     from oslo_utils import timeutils
+    _remember(case)
     kind = case['kind']
     if kind == 'seq':
         outs, state = SeqRunner(case.get('fixture', False)).run(case['init'], case['ops'])
@@ -686,7 +861,8 @@ def model_requests(case):
     kind = case['kind']
     if kind == 'seq':
         return [req('run', 'N' if case['init'] is None else case['init'],
-                    ';'.join(op_str(op) for op in case['ops']) or '-')]
+                    ';'.join(op_str(op) for op in case['ops'] if op[0] != 'norm') or '-')] + \
+               [req('norm', model_dt(op[1])) for op in case['ops'] if op[0] == 'norm']
     if kind == 'norm':
         return [req('norm', model_dt(case['dt']))]
     if kind == 'secs':
@@ -725,10 +901,18 @@ def compare(case, impl, replies):
         parts = replies[0].split('\t')
         if len(parts) != 2:
             return False, replies
-        mo = parts[0].split(';') if case['ops'] else []
+        run_outs = iter(parts[0].split(';') if any(op[0] != 'norm' for op in case['ops']) else [])
+        norm_outs = iter(replies[1:])
+        mo = []
+        for op in case['ops']:
+            if op[0] == 'norm':
+                r = next(norm_outs, '?')
+                mo.append('dt:' + r[5:] if r.startswith('ok:n:') else (r[4:] if r.startswith('err:') else r))
+            else:
+                mo.append(next(run_outs, '?'))
         io = impl[0].split(';') if case['ops'] else []
         ok = len(mo) == len(io) and all(same_out(a, b) for a, b in zip(io, mo)) and parts[1] == impl[1]
-        return ok, parts
+        return ok, [';'.join(mo), parts[1]]
     if kind == 'marshall':
         return replies[0] == '\t'.join(impl), replies
     return replies == impl, replies
@@ -813,6 +997,9 @@ def oracle_seq(case):
                 want = 'OverflowError'                 # cannot be represented: must fail loudly, clock unmoved
             else:
                 clock, want = clock + d, 'none'
+        elif k == 'norm':          # whatever was called before, whatever the clock says
+            u = spec_utc(op[1])
+            want = 'dt:%d' % u if in_range(u) else 'OverflowError'
         elif clock is None:
             want = 'real' if got == 'real' else None
         elif k == 'now':
@@ -847,6 +1034,8 @@ def op_name(op):
         return 'advance_time_delta(timedelta(microseconds=%d))' % op[1]
     if k == 'set':
         return 'set_time_override(%r)' % dt_of(op[1])
+    if k == 'norm':
+        return 'normalize_time(%r)' % build_dt(op[1])
     return {'now': 'utcnow(with_timezone=%s)', 'ts': 'utcnow_ts(microsecond=%s)', 'clear': 'clear_time_override()%s'}[k] % (
         bool(op[1]) if len(op) > 1 else '')
 
@@ -887,8 +1076,10 @@ def oracle_iso(case):
     want_off = off_us(d) or 0
     if r.tzinfo is None or off_us(r) != want_off or us_of(r) != case['dt']['us']:
         return 'parse_isotime(%r) = %r: not the datetime that was formatted' % (s, r)
-    if d.tzinfo is not None and r != d:
-        return 'parse_isotime(%r) = %r != %r' % (s, r, d)
+    # (no `r != d` here: Python never calls an inter-zone pair equal when one side lies in a repeated interval,
+    # PEP 495; reading and offset are compared above, the instant below - all as integers)
+    if us_of(r) - off_us(r) != case['dt']['us'] - want_off:
+        return 'parse_isotime(%r) = %r denotes another instant than %r' % (s, r, d)
     return None
 
 
@@ -966,8 +1157,62 @@ def oracle_unmarshall(case):
 
 def oracle(case):
     k = case['kind']
+    _remember(case)
     return {'seq': oracle_seq, 'norm': oracle_norm, 'iso': oracle_iso, 'secs': oracle_secs,
-            'marshall': oracle_marshall, 'unmarshall': oracle_unmarshall}[k](case)
+            'marshall': oracle_marshall, 'unmarshall': oracle_unmarshall, 'multi': oracle_multi}[k](case)
+
+
+def oracle_multi(case):
+    """several cases one after the other in one process: each must hold whatever ran before it"""
+    for i, c in enumerate(case['cases']):
+        why = oracle(c)
+        if why:
+            return 'case %d of %d, after the earlier ones ran in the same process: %s' % (i + 1, len(case['cases']), why)
+    return None
+
+
+# Every call's result may depend on its arguments and the override cell only - not on what was called earlier
+# in the process.  A failure observed here may therefore be caused by an *earlier* case (hidden state in the
+# implementation); to produce a replay that fails in a fresh process, cases that handed a zone-aware datetime
+# to the implementation are remembered by (zone, wall-clock reading): that is the key under which Python's
+# ==/hash identify aware datetimes of one zone, `fold` ignored.
+
+_EXECUTED = []          # [(keys, case)] in execution order (correspondence and search)
+
+
+def dt_keys(case):
+    specs = []
+    if case['kind'] == 'seq':
+        specs = [op[1] for op in case['ops'] if op[0] in CALLS_WITH_DT]
+    elif case['kind'] in ('norm', 'iso', 'marshall'):
+        specs = [case['dt']]
+    return {(sp['tz'][1], sp['us']) for sp in specs if sp.get('tz') and sp['tz'][0] == 'zone'}
+
+
+def _remember(case):
+    if case['kind'] == 'multi':
+        return
+    keys = dt_keys(case)
+    if keys:
+        _EXECUTED.append((keys, case))
+
+
+def fresh_oracle(case):
+    """oracle(case) in a fresh interpreter: nothing left behind by earlier calls. Returns the reason or None."""
+    import os
+    import subprocess
+    import sys
+    code = ('import sys, json; sys.path.insert(0, %r); import common; from props import C12; '
+            'print("\\n@@" + json.dumps(C12.oracle(json.loads(sys.stdin.read()))))'
+            % os.path.dirname(os.path.dirname(os.path.abspath(__file__))))
+    env = dict(os.environ, PYTHONDONTWRITEBYTECODE='1')
+    try:
+        p = subprocess.run([sys.executable, '-c', code], input=common.json.dumps(case).encode(), env=env,
+                           stdout=subprocess.PIPE, stderr=subprocess.PIPE, timeout=600)
+        line = [l for l in p.stdout.decode('utf-8', 'replace').splitlines() if l.startswith('@@')][-1]
+        return common.json.loads(line[2:])
+    except Exception:            # could not be established: treat as "does not reproduce"
+        return None
 
 
 def spec_clocks(case):
@@ -987,22 +1232,52 @@ def spec_clocks(case):
     return out
 
 
-def shrink(case):
+def shrink_seq(case):
+    """smaller call sequence that still fails *in a fresh process*"""
     if case['kind'] != 'seq' or len(case['ops']) < 2:
         return case
 
-    def still(sub):
-        return oracle(dict(case, ops=sub)) is not None
-    small = dict(case, ops=common.shrink_list(case['ops'], still))
+    def still(sub):          # cheap in-process test first; a reduction is accepted only if it also fails fresh
+        c = dict(case, ops=sub)
+        return oracle(c) is not None and fresh_oracle(c) is not None
+    small = dict(case, ops=common.shrink_list(case['ops'], still, max_steps=60))
     clocks = spec_clocks(small)
     for i in range(len(small['ops']) - 1, 0, -1):       # fold the prefix into the initial override
         cand = dict(small, init=clocks[i], ops=small['ops'][i:])
-        if oracle(cand) is not None:
+        if fresh_oracle(cand) is not None:
             small = cand
             break
-    if small.get('fixture') and oracle(dict(small, fixture=False)) is not None:
+    if small.get('fixture') and fresh_oracle(dict(small, fixture=False)) is not None:
         small['fixture'] = False
     return small
+
+
+def reproducible(case, n_before):
+    """A case (possibly preceded by the earlier cases it depends on) that fails in a fresh process, shrunk;
+    returns (case, reason, note)."""
+    why = fresh_oracle(case)
+    if why:
+        small = shrink_seq(case)
+        return small, fresh_oracle(small) or why, None
+    # fails here but not on its own: an earlier case of this process left something behind
+    keys = dt_keys(case)
+    earlier = [c for k, c in _EXECUTED[:n_before] if k & keys]
+    uniq = []
+    for c in earlier:
+        if c not in uniq:
+            uniq.append(c)
+    multi = {'kind': 'multi', 'cases': uniq[-40:] + [case]}
+    why = fresh_oracle(multi) if uniq else None
+    if why:
+        def still(sub):
+            return fresh_oracle({'kind': 'multi', 'cases': sub + [case]}) is not None
+        pre = multi['cases'][:-1]
+        if len(pre) > 1:
+            pre = common.shrink_list(pre, still, max_steps=40)
+        multi = {'kind': 'multi', 'cases': pre + [case]}
+        return multi, fresh_oracle(multi) or why, 'depends on an earlier call in the same process'
+    return case, None, 'failed in the search process only; not reproduced in a fresh process, nor after the earlier ' \
+                       'cases that used an equal datetime'
 
 
 def search(ctx, seeds, full=False):
@@ -1022,19 +1297,24 @@ def search(ctx, seeds, full=False):
     for case in todo:
         ctx.evaluations += 1
         ctx.count('search/' + case['kind'])
+        n_before = len(_EXECUTED)
         why = oracle(case)
         if why:
-            small = shrink(case)
-            why = oracle(small) or why
+            small, why2, note = reproducible(case, n_before)
+            why = why2 or why
             kind = why.split(':')[0].split(' raised')[0]
             kind = ' '.join(w for w in kind.split() if not w.isdigit())[:60]
-            if small['kind'] == 'seq':
-                bad = [op[0] for op in small['ops']]
+            last = small['cases'][-1] if small['kind'] == 'multi' else small
+            if last['kind'] == 'seq':
+                bad = [op[0] for op in last['ops']]
                 kind = small['kind'] + '/' + '+'.join(sorted(set(bad)))
             if kind in kinds and len(fails) >= 3:
                 continue
             kinds.add(kind)
-            fails.append(Failure(small, {'kind': kind, 'what': why}))
+            detail = {'kind': kind, 'what': why}
+            if note:
+                detail['note'] = note
+            fails.append(Failure(small, detail))
             if len(fails) >= 6:
                 break
     return fails
@@ -1047,14 +1327,15 @@ def replay(ctx, payload):
         print(payload.get('no_longer_checks'))
         return 0
     print('case          :', common.json.dumps(case, sort_keys=True))
-    if case['kind'] == 'seq':
-        print('calls         :', '; '.join(op_name(op) for op in case['ops']),
-              '| override initially', None if case['init'] is None else repr(dt_of(case['init'])),
-              '| through TimeFixture' if case.get('fixture') else '')
-    if case['kind'] != 'iso':
-        print('implementation:', run_impl(case))
-        print('model         :', ctx.driver.ask_many(model_requests(case)))
-    why = oracle(case)
+    why = oracle(case)            # first, in this fresh process: nothing has been called yet
+    for c in (case['cases'] if case['kind'] == 'multi' else [case]):
+        if c['kind'] == 'seq':
+            print('calls         :', '; '.join(op_name(op) for op in c['ops']),
+                  '| override initially', None if c['init'] is None else repr(dt_of(c['init'])),
+                  '| through TimeFixture' if c.get('fixture') else '')
+        if c['kind'] != 'iso':
+            print('implementation:', run_impl(c), '(same calls once more, after the oracle\'s run)')
+            print('model         :', ctx.driver.ask_many(model_requests(c)))
     print('property oracle on the implementation:', why)
     return 1 if why else 0
 
